@@ -76,10 +76,30 @@ def check(run):
     if "Invariant ProgressWithoutEnvironment is violated" not in r["out"]:
         raise Inconclusive("Protocol_writerlimit.cfg was not rejected: the progress invariant is vacuous")
     race = run.build(race=True)
-    trace, st = run.drive("sync", name="sync-sched", extra=["-what", "sched"])
     racelog = os.path.join(run.work, "racelog")
-    t2, st2 = run.drive("sync", name="sync-sched-race", extra=["-what", "sched"], exe=race,
-                        env=dict(VERIF_RACE="1", GORACE="log_path=%s halt_on_error=0 exitcode=0" % racelog), timeout=2400)
+    try:
+        trace, st = run.drive("sync", name="sync-sched", extra=["-what", "sched"])
+        t2, st2 = run.drive("sync", name="sync-sched-race", extra=["-what", "sched"], exe=race,
+                            env=dict(VERIF_RACE="1", GORACE="log_path=%s halt_on_error=0 exitcode=0" % racelog), timeout=2400)
+    except Inconclusive as ex:
+        # the Go runtime aborts the whole process on an unsynchronised map access ("fatal error: concurrent map writes"):
+        # with library frames on the faulting goroutine's stack that IS the data race, witnessed by the runtime itself
+        err = getattr(ex, "stderr", "") or ""
+        m = re.search(r"fatal error: concurrent map[^\n]*\n(?:.*\n){0,40}", err)
+        if not m or "github.com/tonistiigi/fsutil." not in m.group(0):
+            raise
+        frames = [l.strip() for l in m.group(0).splitlines() if "tonistiigi/fsutil" in l][:6]
+        tpath = os.path.join(run.work, "runtime-fatal.ndjson")
+        evs = [dict(ev="Begin", case=1, mode="dirty", differ="metadata", realS=True, realR=True, before=[], metaOnly=False,
+                    origin="runtime-fatal", input=json.dumps(dict(fatal=m.group(0).splitlines()[0], frames=frames))),
+               dict(ev="Race", case=1, frames=frames), dict(ev="End", case=1, after=[], vc=[])]
+        with open(tpath, "w") as fh:
+            fh.write("\n".join(json.dumps(x, separators=(",", ":")) for x in evs) + "\n")
+        tr = syncfam.filter_prefix(run.tlc_trace("SyncTrace", tpath, shards=1), PFX)
+        run.notes.append("the driver process was aborted by the Go runtime: %s" % m.group(0).splitlines()[0])
+        fails = [dict(case=f["case"], clauses=sorted(f["clauses"]), events=evs, confirmed=True, signature=None,
+                      text="runtime abort: %s; library frames: %s" % (m.group(0).splitlines()[0], frames)) for f in tr["failed"]]
+        return finish(run, "model_checking", fails, assumptions=ASSUME)
     # merge: renumber the race run's cases after the first run's
     l1 = open(trace).read().splitlines()
     maxcase = max(int(m) for m in re.findall(r'"case":(\d+)', "\n".join(l1[-50:]) or '"case":0'))
